@@ -1,6 +1,8 @@
-# case setup hooks that attach the C front-end
-from . import driver, stubs_hash
+# case setup hooks that attach the C front-end and library models
+from . import driver, stubs_hash, stubs_big, stubs_chacha
 
 def with_c(ex, case):
     ex.llvm = driver.get_llvm()
     stubs_hash.install(ex)
+    stubs_big.install(ex)
+    stubs_chacha.install(ex)
